@@ -251,8 +251,6 @@ def _alt_with_invisible_branch(n) -> bool:
 def family(tier: str) -> list:
     atoms = [M1, M2, M3]
     bodies = families.exprs(atoms, 2, full_binary_depth=1)
-    if tier == "quick":
-        bodies = [b for i, b in enumerate(bodies) if i % 3 == 0 or i < 120]
     out = []
     for i, e in enumerate(bodies):
         out.append({"<start>": e})
@@ -425,16 +423,16 @@ def work(item):
 
 def run(ctx: Ctx) -> None:
     fam = family(ctx.tier)
-    items = [(r, 4 if ctx.quick else 6) for r in fam]
+    items = [(r, 5 if ctx.quick else 6) for r in fam]
     # the same grammars sliced to one party (the `parties=` path: keep what that party sends)
     two_party = [r for r in fam if not ({"<m4>", "<m5>", "<m6>"} & set(r))]
     extra = [{"<start>": Seq((M3, M3R)), "<m3>": MSG_RULES["<m3>"]}, {"<start>": Alt((M3, M3R)), "<m3>": MSG_RULES["<m3>"]},
              {"<start>": Seq((M3R, M3, M3R)), "<m3>": MSG_RULES["<m3>"]}]
-    sliced_src = extra + (two_party[::5] if ctx.quick else two_party)
+    sliced_src = extra + (two_party[::2] if ctx.quick else two_party)
     n_sliced = 0
     for r in sliced_src:
         for parties in (("A",), ("B",)):
-            items.append((r, 3 if ctx.quick else 5, parties))
+            items.append((r, 4 if ctx.quick else 5, parties))
             n_sliced += 1
     items = rotate(items, ctx.seed)
     ctx.log(f"{len(items)} protocol grammars")
@@ -457,7 +455,7 @@ def run(ctx: Ctx) -> None:
             samples.append({"grammar": r["fan"][len(PRELUDE):], "states": r["states"], "transitions": r["transitions"]})
     ctx.coverage.update(
         states=states, transitions=transitions, traces_validated_against_impl=states - budget_skips, samples=samples, exhaustive=budget_skips == 0,
-        states_not_judged_forecast_budget=budget_skips, grammars=len(items), sliced_specs=n_sliced, spec_errors=spec_errors, distinct_outcomes=outcomes, max_history=4 if ctx.quick else 6,
+        states_not_judged_forecast_budget=budget_skips, grammars=len(items), sliced_specs=n_sliced, spec_errors=spec_errors, distinct_outcomes=outcomes, max_history=5 if ctx.quick else 6,
         rule="state = (message history, history tree) reached by mounting forecast options; every state's forecast and completeness flag is compared with the reference message-level language; "
              "sliced specs (slice_parties to {A} and to {B}) are judged against the projection of the language to the kept party's messages, under either reading of slicing (erase / remove)",
     )
